@@ -20,9 +20,12 @@ LoadLog == TLCSet(7, ndJsonDeserialize(IOEnv.TRACE))
 VARIABLES l,      \* next line of TraceLog to consume
           ses,    \* session id -> abstract session state
           skip,   \* a conjunct failed in this execution: skip to Reset
-          nviol   \* number of reported violations (for the post-condition)
+          nviol,  \* number of reported violations (for the post-condition)
+          xs      \* per-execution counters printed at Reset (coverage / vacuity evidence)
 
-vars == <<l, ses, skip, nviol>>
+vars == <<l, ses, skip, nviol, xs>>
+
+XS0 == [ dec |-> 0, finok |-> 0, finfail |-> 0, cbn |-> 0, calls |-> 0, gettab |-> 0, build |-> 0 ]
 
 OK == 0
 FAILURE == 1
@@ -110,7 +113,7 @@ DoSetParams(s0, ev) ==
         known0 == IF ev.st = OK /\ ev.codec \in {3, 5} /\ ev.role = "dec"
                   THEN PeelClosure(H, Pre(s1)) ELSE {}
     IN  [ s |-> [s1 EXCEPT !.known = known0],
-          fails |-> F(ev.st = OK, "C09", "params-rejected")
+          fails |-> F(ev.raw = 1 \/ ev.st = OK, "C09", "params-rejected")
                     \cup F("cw_ok" \notin DOMAIN ev \/ ev.cw_ok = 1, "INFRA", "driver-codeword")
                     \cup cwFails
                     \cup (IF ev.st = OK THEN Common(ev) ELSE {}) ]
@@ -271,15 +274,27 @@ Init == /\ LoadLog
         /\ ses = [ i \in SessIds |-> NoSes ]
         /\ skip = FALSE
         /\ nviol = 0
+        /\ xs = XS0
 
 Apply(ev, res, sid) ==
     IF res.fails = {}
     THEN /\ ses' = [ses EXCEPT ![sid] = res.s]
+         /\ xs' = LET a0 == Avail(ses[sid])
+                      a1 == Avail(res.s)
+                      newdec == IF ev.e \in {"Recv", "SetAvail", "Finish"}
+                                THEN Cardinality((a1 \ a0) \ (res.s.rcvd \cap Src(res.s))) ELSE 0
+                  IN  [xs EXCEPT !.dec = @ + newdec,
+                                 !.finok = @ + (IF ev.e = "Finish" /\ ev.st = OK THEN 1 ELSE 0),
+                                 !.finfail = @ + (IF ev.e = "Finish" /\ ev.st # OK THEN 1 ELSE 0),
+                                 !.cbn = @ + (IF "cb" \in DOMAIN ev THEN Len(ev.cb) ELSE 0),
+                                 !.calls = @ + 1,
+                                 !.gettab = @ + (IF ev.e = "GetTab" THEN 1 ELSE 0),
+                                 !.build = @ + (IF ev.e = "Build" THEN 1 ELSE 0)]
          /\ UNCHANGED <<skip, nviol>>
     ELSE /\ Report(res.fails, ev, res.s)
          /\ skip' = TRUE
          /\ nviol' = nviol + Cardinality(res.fails)
-         /\ UNCHANGED ses
+         /\ UNCHANGED <<ses, xs>>
 
 Step ==
     /\ l <= Len(TraceLog)
@@ -288,14 +303,16 @@ Step ==
        IN  IF ev.e = "Reset"
            THEN /\ ses' = [ i \in SessIds |-> NoSes ]
                 /\ skip' = FALSE
+                /\ PrintT(<<"XSTAT", ev.x, xs.dec, xs.finok, xs.finfail, xs.cbn, xs.calls, xs.gettab, xs.build, skip>>)
+                /\ xs' = XS0
                 /\ UNCHANGED nviol
            ELSE IF ev.e = "MemFault"
            THEN /\ PrintT(<<"VMSG", l, ev.x, "C07", "memfault-" \o ev.what \o "-" \o ev.op, ev.codec, ev.args>>)
                 /\ nviol' = nviol + 1
                 /\ skip' = TRUE
-                /\ UNCHANGED ses
+                /\ UNCHANGED <<ses, xs>>
            ELSE IF skip
-           THEN UNCHANGED <<ses, skip, nviol>>
+           THEN UNCHANGED <<ses, skip, nviol, xs>>
            ELSE LET sid == ev.s
                     s0  == ses[sid]
                 IN  CASE ev.e = "Create"    -> Apply(ev, DoCreate(ev), sid)
@@ -308,7 +325,7 @@ Step ==
                       [] ev.e = "GetTab"    -> Apply(ev, DoGetTab(s0, ev), sid)
                       [] ev.e = "Release"   -> Apply(ev, DoRelease(s0, ev), sid)
                       [] ev.e = "Build"     -> Apply(ev, DoBuild(s0, ev), sid)
-                      [] OTHER              -> UNCHANGED <<ses, skip, nviol>>
+                      [] OTHER              -> UNCHANGED <<ses, skip, nviol, xs>>
 
 Next == Step
 
